@@ -32,6 +32,7 @@ def src(inner, pid, nm):
     return events.source(inner, pid, nm)
 
 
+@common.part
 def counting(chk):
     prog = chk.prog
     ix = events.CukeIdx(prog)
@@ -165,6 +166,7 @@ def describe_event(ex, M, ix, ev):
     return None
 
 
+@common.part
 def finish_all(chk, prop='C03'):
     """finish_all_rules_and_features: leftover maps with <= 2 features x <= 2 rules, every hash-map iteration order."""
     prog = chk.prog
@@ -294,6 +296,7 @@ def confirm_finish_all(chk, o, prop='C03'):
         o.detail += ' | reproduced natively (in-crate replay of the real finish_all_rules_and_features): emitted %s' % evs
 
 
+@common.part
 def start_scenarios(chk):
     """start_scenarios: a batch of <= 3 runnable entries over <= 2 features / <= 2 rules, some brackets already open."""
     prog = chk.prog
